@@ -115,7 +115,8 @@ def _apply_op(op, x):
 def make_member(spec):
     ops, ret = spec["ops"], spec.get("ret", "list")
     def member(x):
-        y = list(x)
+        # "inplace": update the argument itself and hand it back (what the solvers generated from symbolic constraints do)
+        y = x if (ret == "inplace" and type(x) is list) else list(x)
         for op in ops:
             y = _apply_op(op, y)
         if ret == "array":
@@ -289,7 +290,8 @@ def _member_set(rng, n, ln):
         for k in range(n):
             ms.append(dict(ops=[_rand_op(rng, ln, pool) for _ in range(rng.choice([0, 1, 1, 2, 3]))]))
     for m in ms:
-        m["ret"] = "array" if rng.random() < 0.15 else "list"
+        r = rng.random()
+        m["ret"] = "array" if r < 0.15 else "inplace" if r < 0.4 else "list"
     return cat, ms
 
 
